@@ -112,6 +112,14 @@ CHECKS = {
         "and the general (footprint) path, same CRS and cross CRS; TLC requires every intersecting tile returned, no strictly disjoint tile for geometry queries, every needed source tile listed, no error and "
         "no dependency at all for rasters that do not overlap.",
    ref="5/C12", note=TB + "zero-area contacts are free; shapely predicates are never used as an oracle; cross-CRS through the exact tmerc family"),
+ "C13": dict(
+   technique="TLA+ composition of tiling, dependency-graph and nearest-neighbour models (ChunkedWarp) checked by TLC; real dask graphs executed under TLC-chosen task orders (TaskGraph) and compared with the in-memory result by TLC",
+   text="TLC proves on the bounded family that dependency lists containing every exactly needed source tile (in particular the transcribed linear path) make the assembled chunk-local warps equal "
+        "the whole-array nearest-neighbour warp at every destination pixel, and conversely that dropping a needed tile leaves a hole (which ties C12 to C13). The real xr_reproject is run on numpy-backed and "
+        "dask-backed arrays for same-CRS pairs (shifts, scales, mirroring, rotation, overlapping to disjoint) and across the exact-translation CRS, 3 chunkings incl. 1-pixel chunks, 7 dtype / nodata / time-axis "
+        "configurations, under dask's default order, TLC-chosen orders of the exported task graph and a thread pool; TLC requires pixel identity, the fill rule on every uncovered pixel (uniform across chunks), no "
+        "error for disjoint rasters, and compares the in-memory result with the first-principles nearest-neighbour model.",
+   ref="5/C13", note=TB + "ties (centre on a source pixel boundary) are not generated; cross-CRS through the exact tmerc family; GDAL in-memory warp is the reference named by the property"),
 }
 
 NOT_YET = "check not built yet (work in progress); see DESIGN.md"
